@@ -27,7 +27,7 @@ Record Inv (st : lst) : Prop := mkInv {
   i_qn : NoDup (map fst (l_q st));
   i_qi : NoDup (map snd (l_q st));
   i_len : forall a n, alook a (l_len st) = Some n -> a < l_next st;
-  i_ret : forall g, In g (l_ret st) -> exists r, alook r (l_rf st) = Some g
+  i_ret : forall g, In g (l_ret st) -> exists r m, g = Rg BM m /\ alook r (l_rf st) = Some g
 }.
 
 Record Ext (st st' : lst) : Prop := mkExt {
@@ -328,9 +328,9 @@ Proof.
       * destruct ip; [assumption|apply adel_nodup_fst; assumption].
       * destruct ip; [assumption|apply adel_nodup_snd; assumption].
       * intros g Hg. apply in_app_or in Hg. destruct Hg as [Hg|[<-|[]]].
-        -- destruct (G _ Hg) as (r' & Hr'). exists r'. cbn.
+        -- destruct (G _ Hg) as (r' & m' & Em' & Hr'). exists r', m'. split; [exact Em'|]. cbn.
            destruct (Nat.eqb r' r) eqn:Ex; [apply Nat.eqb_eq in Ex; subst; congruence|exact Hr'].
-        -- exists r. cbn. rewrite Nat.eqb_refl. reflexivity.
+        -- exists r, m. split; [reflexivity|]. cbn. rewrite Nat.eqb_refl. reflexivity.
     + constructor; cbn [bind_rf l_lv l_act l_rf l_ret l_mused l_q l_len l_next];
         rewrite ?A1, ?N1, ?R1, ?L1, ?Le1, ?M1, ?Rt1; auto using sub_refl.
       * apply sub_cons_fresh. exact Er.
